@@ -109,6 +109,26 @@ P = {
          '§5 C11, §4.5', 'Python json/csv parsing of outputs; float str().'),
 }
 
+# Python functions re-translated into Lean from /repo's current source on every run (harness/py2lean.py, harness/pytrace.py) and proved equal to the
+# model (Tie/Py*.lean), with the property-level corollaries about the translated code (Tie/PyProps*.lean); DESIGN §9.5
+PYTIE = {
+ 'C01': ('find_kmers, KmerMatch.kmer_indices', 'find_kmers_eq, kmer_indices_fwd/rev, py_find_kmers_complete'),
+ 'C03': ('matching_taxon, GenomeMatch.next_taxon, classify, reportable_taxon, get_result_item',
+         'matching_taxon_eq, next_taxon_eq, classify_default_eq, reportable_taxon_eq, get_result_item_eq, py_matching_spec, py_next_spec, py_coarsen_mono, py_classify_default_ok'),
+ 'C05': ('chunk_slices', 'chunk_slices_eq/_bad/_neg, py_chunks_partition'),
+ 'C06': ('find_kmers', 'find_kmers_eq'),
+ 'C07': ('kmer_to_index, kmer_to_index_rc, index_dtype, nkmers', 'kmer_to_index_eq, kmer_to_index_rc_eq, index_dtype_eq, nkmers_eq'),
+ 'C08': ('strip_extensions, strip_seq_file_ext, get_file_id', 'strip_extensions_eq, strip_seq_file_ext_eq, get_file_id_eq/_nostrip/_noext'),
+ 'C09': ('classify, get_result_item', 'classify_default_eq, classify_strict_eq, get_result_item_eq, get_result_item_head, py_closest_ok'),
+ 'C10': ('find_matches, consensus_taxon, classify', 'find_matches_eq, consensus_taxon_eq, classify_strict_eq, py_consensus_perm, py_classify_strict_ok'),
+ 'C12': ('the storage calls of dump_signatures_hdf5 / HDF5Signatures.create / _init_attrs / write_metadata / _init_datasets, the loader\'s checks',
+         'writer_trace_eq, hdf5_structural_facts'),
+ 'C16': ('strip_extensions, strip_seq_file_ext, get_file_id', 'get_file_id_eq'),
+ 'C19': ('the storage calls of dump_signatures_hdf5 and everything it calls, its exception handler',
+         'writer_trace_eq, writer_trace_no_flush, writer_trace_close_last, py_crash_never_loads, hdf5_structural_facts'),
+ 'C20': ('AdvancedIndexingMixin._check_index', 'check_index_eq, py_check_index_spec'),
+}
+
 REASON_PENDING = 'check not built yet in this round (machinery under construction; see DESIGN.md §8 build order)'
 
 ALL = [f'C{i:02d}' for i in range(1, 21)]
@@ -120,6 +140,14 @@ def main():
 	for pid in ALL:
 		if pid in P and P[pid][0]:
 			_, tech, text, ref, note = P[pid]
+			if pid in PYTIE:
+				fns, thms = PYTIE[pid]
+				tech += ' + source-to-Lean translator tie for the Python functions (re-translated from /repo on every run, proved equal to the model)'
+				text += (f' Translator tie (DESIGN §9.5): {fns} are re-translated into Lean from the current source at the start of every run and '
+				         f'proved equal to the model for all inputs ({thms} in Tie/Py*.lean); a change of these functions breaks the proof, '
+				         'then a failing input is searched.')
+				ref += ', §9.5'
+				note += ' The translation scheme of harness/py2lean.py / pytrace.py and the run-time library Model/PyRt.lean are trusted as described in DESIGN §3; the generated definitions are evaluated next to the real functions on every run.'
 			checks.append({
 				'property_id': pid,
 				'quick_cmd': f'./check {pid} quick',
@@ -150,7 +178,8 @@ def main():
 			'path': 'lean/ (theorems, models, driver) + harness/ (correspondence, audit)',
 			'serves_properties': [c['property_id'] for c in checks],
 			'kind_free_text': 'machine-checked proof in Lean 4 about executable models; models tied to the code on every run by a '
-			                  'differential correspondence check whose oracle is the Lean spec, and (native core) by a .pyx→Lean translator',
+			                  'differential correspondence check whose oracle is the Lean spec, and by translators that regenerate Lean definitions from the '
+			                  'current sources on every run (.pyx→Lean for the Cython kernels, Python→Lean for twenty logic functions), proved equal to the models',
 		}],
 		'checks': checks,
 		'not_applicable': na,
